@@ -53,27 +53,46 @@ func runConcRoots(c *Case) []string {
 	for i := range jobs {
 		jobs[i] = job{a.next(), a.big(), a.big(), a.int()}
 	}
-	outs := make([][]string, g)
-	var wg sync.WaitGroup
-	for i := range jobs {
-		wg.Add(1)
-		go func(i int) {
-			defer wg.Done()
-			defer func() {
-				if e := recover(); e != nil {
-					outs[i] = []string{"PANIC", "x"}
-				}
-			}()
-			x := makeRoot(c.Ver, jobs[i].ctor, jobs[i].num, jobs[i].den)
-			outs[i] = observeDigits(x, jobs[i].depth)
-		}(i)
+	// several rounds, all goroutines released together; every round must give the same (sequential) observations:
+	// when rounds differ, the odd one out is what gets reported
+	const rounds = 3
+	var results [rounds][]string
+	for rd := 0; rd < rounds; rd++ {
+		outs := make([][]string, g)
+		start := make(chan struct{})
+		var wg sync.WaitGroup
+		for i := range jobs {
+			wg.Add(1)
+			go func(i int) {
+				defer wg.Done()
+				defer func() {
+					if e := recover(); e != nil {
+						outs[i] = []string{"PANIC", "x"}
+					}
+				}()
+				<-start
+				x := makeRoot(c.Ver, jobs[i].ctor, jobs[i].num, jobs[i].den)
+				outs[i] = observeDigits(x, jobs[i].depth)
+			}(i)
+		}
+		close(start)
+		wg.Wait()
+		for _, o := range outs {
+			results[rd] = append(results[rd], o...)
+		}
 	}
-	wg.Wait()
-	var out []string
-	for _, o := range outs {
-		out = append(out, o...)
+	key := func(r []string) string { return strings.Join(r, " ") }
+	count := map[string]int{}
+	for _, r := range results {
+		count[key(r)]++
 	}
-	return out
+	best := results[0]
+	for _, r := range results {
+		if count[key(r)] < count[key(best)] {
+			best = r
+		}
+	}
+	return best
 }
 
 func genConcRoots(r *Rng, emit func(Case), n int) { genConcRootsOf(r, emit, n, "", 4) }
